@@ -2,7 +2,7 @@
    Only statements, [exact], Examples and [Print Assumptions] live here. *)
 From Coq Require Import String List Arith Bool Permutation.
 Require Import TT.Model.Str TT.Model.C08Fingerprint TT.Model.C08Run.
-Require Import TT.Proofs.C08RunProofs TT.Proofs.C08FpProofs TT.Proofs.C08Examples TT.Proofs.SortInvSpike.
+Require Import TT.Proofs.C08RunProofs TT.Proofs.C08FpProofs TT.Proofs.C08Examples TT.Proofs.SortInvSpike TT.Proofs.C14MapOrder.
 Import ListNotations.
 
 Notation up_to_date_c := (up_to_date project config sched fname tree tree files).
@@ -96,6 +96,25 @@ Proof. exact c14_path_under_viz. Qed.
 Theorem C14_relative_path : forall root r : str, rel_path root (root ++ L "/" ++ r)%list = r.
 Proof. exact rel_path_app. Qed.
 
+(* round 7. The iteration order of the type_mappings map (w_maps) reaches nothing: two schedules that agree on the file
+   order give the same fingerprint, the same write plan and the same unhashed component; every run and every history
+   of the machine is the same whatever map orders its runs drew. In particular the order fed to the model on the
+   build-script path (where it is not observable) is immaterial. *)
+Theorem C14_map_order_irrelevant : forall (w w' : sched) (p : project) (c : config), w_files w = w_files w' ->
+  fp w p c = fp w' p c /\ files w p c = files w' p c /\ unhashed w p c = unhashed w' p c.
+Proof. exact map_order_irrelevant. Qed.
+Theorem C14_run_map_order_irrelevant : forall (presence : bool) (w w' : sched) (flag : bool) (fault : option nat) (st : cstate),
+  w_files w = w_files w' -> run_c presence w flag fault st = run_c presence w' flag fault st.
+Proof. exact run_files_only. Qed.
+Theorem C14_history_map_order_irrelevant : forall (presence : bool) (ops ops' : list cop) (st : cstate),
+  Forall2 same_files_op ops ops' -> fold_left (step_c presence) ops st = fold_left (step_c presence) ops' st.
+Proof. exact history_files_only. Qed.
+Example C14_ex_map_orders :
+  w_files wm01 = w_files wm10 /\ w_maps wm01 <> w_maps wm10 /\ valid_sched wm01 p0 cmaps = true /\ valid_sched wm10 p0 cmaps = true /\
+  Forall2 same_files_op [Run _ _ _ _ wm01 false; SetCfg _ _ _ _ cmaps; Run _ _ _ _ wm10 true] [Run _ _ _ _ wm10 false; SetCfg _ _ _ _ cmaps; Run _ _ _ _ wm01 true].
+Proof. split; [reflexivity|]. split; [discriminate|]. split; [reflexivity|]. split; [reflexivity|].
+  repeat constructor. Qed.
+
 Example C14_ex_premises :
   fp w01 p2 c0 = fp w10 p2 c0 /\ NoDup (map s_name (a_structs (analyse w01 p2))) /\ has_commands p2 = true /\
   u_events (analyse w01 p2) = u_events (analyse w10 p2).
@@ -111,3 +130,6 @@ Print Assumptions C14_matching_record_noop.
 Print Assumptions C14_repaired_path_spelling.
 Print Assumptions C14_path_spelling_under_visualize.
 Print Assumptions C14_relative_path.
+Print Assumptions C14_map_order_irrelevant.
+Print Assumptions C14_run_map_order_irrelevant.
+Print Assumptions C14_history_map_order_irrelevant.
